@@ -87,6 +87,15 @@ func Describe(x any) string {
 	return desc(reflect.ValueOf(x))
 }
 
+// DescribeNoSpans is Describe with every span omitted.
+func DescribeNoSpans(x any) string {
+	noSpans = true
+	defer func() { noSpans = false }()
+	return desc(reflect.ValueOf(x))
+}
+
+var noSpans bool
+
 func desc(v reflect.Value) string {
 	if !v.IsValid() {
 		return "<invalid>"
@@ -100,6 +109,9 @@ func desc(v reflect.Value) string {
 	case reflect.Struct:
 		if v.Type() == spanType {
 			s := v.Interface().(parser.Span)
+			if noSpans {
+				return ""
+			}
 			if !s.IsValid() {
 				return "-"
 			}
@@ -134,4 +146,117 @@ func desc(v reflect.Value) string {
 		}
 		return fmt.Sprint(v.Interface())
 	}
+}
+
+// Children returns the direct child nodes of n in field order: every exported
+// field (or slice element) that holds a non-nil value implementing parser.Node.
+// skip(typeName, fieldName) excludes fields (the documented Walk exceptions).
+func Children(n parser.Node, skip func(typ, field string) bool) []parser.Node {
+	v := reflect.ValueOf(n)
+	for v.Kind() == reflect.Ptr || v.Kind() == reflect.Interface {
+		if v.IsNil() {
+			return nil
+		}
+		v = v.Elem()
+	}
+	if v.Kind() != reflect.Struct {
+		return nil
+	}
+	var out []parser.Node
+	add := func(f reflect.Value) {
+		for f.Kind() == reflect.Interface {
+			if f.IsNil() {
+				return
+			}
+			f = f.Elem()
+		}
+		if f.Kind() == reflect.Ptr {
+			if f.IsNil() {
+				return
+			}
+			if f.Type().Implements(nodeType) {
+				out = append(out, f.Interface().(parser.Node))
+			}
+		}
+	}
+	for i := 0; i < v.NumField(); i++ {
+		sf := v.Type().Field(i)
+		if !sf.IsExported() || (skip != nil && skip(v.Type().Name(), sf.Name)) {
+			continue
+		}
+		f := v.Field(i)
+		if f.Kind() == reflect.Slice {
+			for k := 0; k < f.Len(); k++ {
+				add(f.Index(k))
+			}
+			continue
+		}
+		add(f)
+	}
+	return out
+}
+
+// IsNilNode reports whether n is nil or a typed nil pointer.
+func IsNilNode(n parser.Node) bool {
+	if n == nil {
+		return true
+	}
+	v := reflect.ValueOf(n)
+	return v.Kind() == reflect.Ptr && v.IsNil()
+}
+
+// Pairs walks two structurally equal trees in parallel and calls fn for every
+// pair of corresponding nodes.
+func Pairs(a, b parser.Node, fn func(a, b parser.Node)) {
+	if IsNilNode(a) || IsNilNode(b) {
+		return
+	}
+	fn(a, b)
+	ca, cb := Children(a, nil), Children(b, nil)
+	for i := 0; i < len(ca) && i < len(cb); i++ {
+		Pairs(ca[i], cb[i], fn)
+	}
+}
+
+// Spans collects every span stored in exported fields anywhere below x.
+func Spans(x any, fn func(path string, s parser.Span)) {
+	spans(reflect.ValueOf(x), "", fn, 0)
+}
+
+func spans(v reflect.Value, path string, fn func(string, parser.Span), depth int) {
+	if !v.IsValid() || depth > 100000 {
+		return
+	}
+	switch v.Kind() {
+	case reflect.Interface, reflect.Ptr:
+		if !v.IsNil() {
+			spans(v.Elem(), path, fn, depth+1)
+		}
+	case reflect.Struct:
+		if v.Type() == spanType {
+			fn(path, v.Interface().(parser.Span))
+			return
+		}
+		for i := 0; i < v.NumField(); i++ {
+			if v.Type().Field(i).IsExported() {
+				spans(v.Field(i), path+"."+v.Type().Field(i).Name, fn, depth+1)
+			}
+		}
+	case reflect.Slice:
+		for i := 0; i < v.Len(); i++ {
+			spans(v.Index(i), path, fn, depth+1)
+		}
+	}
+}
+
+// TypeName returns the bare type name of a node.
+func TypeName(n any) string {
+	t := reflect.TypeOf(n)
+	for t != nil && t.Kind() == reflect.Ptr {
+		t = t.Elem()
+	}
+	if t == nil {
+		return "nil"
+	}
+	return t.Name()
 }
